@@ -3,6 +3,7 @@ import FitProps.CsvRoundtripLemmas
 import FitProps.CsvFullLemmas
 import FitProps.CsvTextLemmas
 import FitProps.CsvTextFinalLemmas
+import FitProps.CsvGateLemmas
 /-!
 # C19 — fitconv: FIT to CSV and back preserves messages and field values
 
@@ -246,6 +247,15 @@ theorem C19_roundtrip (o : Opts) (files : List (List Message)) (hne : files ≠ 
     fromCsvPre Arith.so (toCsv o files) = .ok ⟨expected o files, files.length⟩ :=
   roundtrip_full o files hne h
 
+/-- **… and `Convert` succeeds**: the statement for `fromCsv`, the function the driver runs and compares with the real
+`CSVToFITConv.Convert` — the sequences also pass the encoder's validator as `gateSeq` models it (no empty sequence; every
+written field's value aligned with its base type; every developer field's developer data index announced by a
+developer_data_id that comes back earlier in the same sequence, its description — the FIRST match of the sequence, as the
+validator looks it up — found and its value aligned with the described base type) -/
+theorem C19_roundtrip_convert (o : Opts) (files : List (List Message)) (hne : files ≠ []) (h : csvUnambiguousB o files = true) :
+    fromCsv Arith.so (toCsv o files) = .ok ⟨expected o files, files.length⟩ :=
+  roundtrip_gate o files hne h
+
 /-- **Chained inputs come back as the same number of sequences**, for every chain within `CsvUnambiguous` -/
 theorem C19_sequences (o : Opts) (files : List (List Message)) (hne : files ≠ []) (h : csvUnambiguousB o files = true) :
     ∃ b, fromCsvPre Arith.so (toCsv o files) = .ok b ∧ b.seq = files.length ∧ b.seqs.length = files.length := by
@@ -440,8 +450,8 @@ through `strconv.ParseFloat` / `FormatFloat` (float fields, the scaled mode, deg
 theorem C19_roundtrip_text (tp : TextParam) (hf : FloatOK tp) (o : Opts) (files : List (List Message)) (hne : files ≠ [])
     (h : csvUnambiguousB o files = true) :
     ∃ lines, csvText tp o (toCsv o files) = some lines ∧
-      fromCsvTextPre (Arith.so.withText tp) lines = .ok ⟨expected o files, files.length⟩ :=
-  roundtrip_text tp hf o files hne h
+      fromCsvText (Arith.so.withText tp) lines = .ok ⟨expected o files, files.length⟩ :=
+  roundtrip_text_gate tp hf o files hne h
 
 /-- the text of the demo file's record line in raw mode (integers only: no assumption involved), and what the reader
 makes of the whole text -/
@@ -451,7 +461,7 @@ example : (csvText tpNoFloat { raw := true } (toCsv { raw := true } [demoFull]))
     some (txt "Data,0,record,distance,\"16039\",m,cycles,\"3\",cycles,total_cycles,\"3\",cycles,dev0_x,\"7\",bpm,,,") := by decide +kernel
 
 example : (match csvText tpNoFloat { raw := true } (toCsv { raw := true } [demoFull, demoFull]) with
-    | some lines => (match fromCsvTextPre (Arith.so.withText tpNoFloat) lines with
+    | some lines => (match fromCsvText (Arith.so.withText tpNoFloat) lines with
         | .ok b => b.seqs == expected { raw := true } [demoFull, demoFull] && b.seq == 2
         | _ => false)
     | none => false) = true := by decide +kernel
